@@ -23,6 +23,12 @@ def run(tier, seed, t0):
     defaults = [(be, lam) for be in vbuild.BACKENDS for lam in (80, 128)] if thorough else [("spqlios-fma", 128), ("spqlios-avx", 80)]
     for be, lam in defaults:
         jobs.append(Job("default%d-%s" % (lam, be), "drv_c15", "optim", be, ["--seed", seed, "--lambda", lam, "--reps", 1, "--lreps", 1], timeout=3600, weight=2))
+    # the server role: a process that only imports and evaluates (generator never seeded or used), one first entry point per run
+    firsts = list(range(14)) if thorough else [0, 3, 10, 6, 11]
+    for i, g in enumerate(firsts):
+        be = vbuild.BACKENDS[i % 5]
+        jobs.append(Job("server-first%d-%s" % (g, be), "drv_c15", "optim" if i % 3 else "debug", be, ["--mode", "server", "--first", g, "--seed", seed + i], timeout=3600))
+    jobs.append(Job("server-default128", "drv_c15", "optim", "spqlios-fma", ["--mode", "server", "--first", 0, "--lambda", 128, "--seed", seed], timeout=3600, weight=2))
     for i, j in enumerate(jobs):      # process history: every other native job first generates and uses a custom parameter set
         if j.tool is None and j.driver == "drv_c15" and i % 2 == 0:
             j.args = j.args + ["--prelude", "1"]
